@@ -120,6 +120,10 @@ def get_facts(repo=REPO, verbose=True):
     fdir = os.path.join(CACHE, 'facts', th)
     marker = os.path.join(fdir, 'OK')
     if os.path.exists(marker):
+        try:
+            os.utime(fdir, None)
+        except OSError:
+            pass
         return fdir, 'hit', th, None
     lock = open(os.path.join(CACHE, 'lock'), 'w')
     fcntl.flock(lock, fcntl.LOCK_EX)
